@@ -430,7 +430,7 @@ func h2ValidStream(rng *lab.Rand) []byte {
 }
 
 func c08H2(c *lab.Ctx) {
-	c.Rule("HTTP/2: valid connection streams (preface, SETTINGS, HEADERS(+CONTINUATION, padding), DATA, PING, WINDOW_UPDATE, RST, PRIORITY built with x/net/http2) corrupted by the field grid over the first 96 bytes after the preface and over every frame header, all type/flag byte values, truncation, splices, random; through the real server stream connection Dispatch (whole and in two chunks) under recover + watchdog + allocation meter; HPACK decoder alone on corrupted header blocks; distinct = (target, corruption kind, outcome)")
+	c.Rule("HTTP/2: valid connection streams (preface, SETTINGS, HEADERS(+CONTINUATION, padding), DATA, PING, WINDOW_UPDATE, RST, PRIORITY built with x/net/http2) corrupted by the field grid over the first 96 bytes after the preface and over every frame header, an exhaustive grid of padded HEADERS / DATA / PUSH_PROMISE frames (payload length 0..16 x flag combinations of PADDED, PRIORITY, END_HEADERS, END_STREAM x every Pad Length 0..len+2, 255), all type/flag byte values, truncation, splices, random; through the real server stream connection Dispatch (whole and in two chunks) under recover + watchdog + allocation meter; HPACK decoder alone on corrupted header blocks; distinct = (target, corruption kind, outcome)")
 	rng := c.Rand("h2")
 	w := &c08Watch{}
 	w.start(c, "C08")
@@ -498,6 +498,49 @@ func c08H2(c *lab.Ctx) {
 			c.Count("outcome:h2:"+kind+"/"+out, 1)
 		}
 		try("valid", valid)
+		if bi == c.Batch {
+			// exhaustive small grid: padded frames. For HEADERS / DATA / PUSH_PROMISE on stream 1 every payload length 0..16, every
+			// flag combination of PADDED / PRIORITY / END_HEADERS / END_STREAM and every Pad Length value 0..len+2 and 255
+			// (the pad length is counted against what is left after the optional priority / promised-id fields)
+			settings := []byte{0, 0, 0, 4, 0, 0, 0, 0, 0}
+			block := []byte{0x82, 0x86, 0x84, 0x41, 0x01, 'a'} // :method GET, :scheme http, :path /, :authority a
+			for _, typ := range []byte{0x1, 0x0, 0x5} {
+				for _, flags := range []byte{0x08, 0x08 | 0x20, 0x20, 0x08 | 0x04, 0x08 | 0x20 | 0x04, 0x08 | 0x20 | 0x04 | 0x01, 0x08 | 0x01} {
+					for L := 0; L <= 16; L++ {
+						pads := []int{255}
+						for v := 0; v <= L+2; v++ {
+							pads = append(pads, v)
+						}
+						for _, pad := range pads {
+							payload := make([]byte, 0, L)
+							if flags&0x08 != 0 {
+								payload = append(payload, byte(pad))
+							}
+							if typ == 0x1 && flags&0x20 != 0 {
+								payload = append(payload, 0, 0, 0, 0, 16) // dependency 0, weight 16
+							}
+							if typ == 0x5 {
+								payload = append(payload, 0, 0, 0, 2)
+							}
+							payload = append(payload, block...)
+							for len(payload) < L {
+								payload = append(payload, 0)
+							}
+							payload = payload[:L]
+							in := append([]byte(http2.ClientPreface), settings...)
+							if typ == 0x0 {
+								// DATA needs an open stream: HEADERS without END_STREAM first
+								in = append(in, 0, 0, byte(len(block)), 0x1, 0x04, 0, 0, 0, 1)
+								in = append(in, block...)
+							}
+							in = append(in, 0, 0, byte(L), typ, flags, 0, 0, 0, 1)
+							in = append(in, payload...)
+							try(fmt.Sprintf("pad-grid/type%d/flags%02x", typ, flags), in)
+						}
+					}
+				}
+			}
+		}
 		// corruption grid on the part after the preface, and on each frame header
 		tail := valid[preLen:]
 		c08Inputs(brng, tail, bi < nBase/2, func(kind string, b []byte) {
